@@ -14,7 +14,15 @@ import (
 
 // compileProgram writes the program's files under dir and compiles main.mro
 // with the real compiler.
-func compileProgram(p *pgen.Program, dir string) (*syntax.Ast, string, error) {
+func compileProgram(p *pgen.Program, dir string) (ast *syntax.Ast, src string, err error) {
+	// martian's compiler has no recover(): a panic in it must not end the
+	// campaign of a property that is not about the compiler (C08 reports
+	// compiler crashes from child processes).
+	defer func() {
+		if r := recover(); r != nil {
+			err = fmt.Errorf("COMPILER PANIC: %v", r)
+		}
+	}()
 	files := p.Print()
 	for name, text := range files {
 		fp := filepath.Join(dir, name)
@@ -24,7 +32,7 @@ func compileProgram(p *pgen.Program, dir string) (*syntax.Ast, string, error) {
 		}
 	}
 	mainPath := filepath.Join(dir, "main.mro")
-	src, _, ast, err := syntax.ParseSourceBytes([]byte(files["main.mro"]), mainPath, []string{dir}, false)
+	src, _, ast, err = syntax.ParseSourceBytes([]byte(files["main.mro"]), mainPath, []string{dir}, false)
 	if err == nil && ast != nil && ast.Call != nil {
 		// mrp / mro check also resolve the static call graph.
 		if _, gerr := ast.MakeCallGraph("ID.psid.", ast.Call); gerr != nil {
